@@ -13,30 +13,42 @@ import (
 
 const unixToInternal int64 = (1969*365 + 1969/4 - 1969/100 + 1969/400) * 86400
 
-// timeNow returns a symbolic wall-clock instant (whole seconds + symbolic
-// nanoseconds, no monotonic reading), non-decreasing across calls on a path.
+// timeNow returns the symbolic wall-clock instant of the path: a symbolic base
+// (whole seconds, optional symbolic nanoseconds, no monotonic reading) plus the
+// advances requested by the harness through verifapi.AdvanceClock. Between two
+// advances every reading is the same instant.
 func (m *Machine) timeNow() Value {
 	c := m.ctx
-	sec := m.nondet("now.sec", 64)
-	// plausible clock range: 2001 .. ~2248 (keeps arithmetic far from wrap-around)
-	m.assume(c.And(c.Sle(c.Const(1_000_000_000, 64), sec), c.Sle(sec, c.Const(1<<33, 64))))
-	if m.lastNow != nil {
-		m.assume(c.Sle(m.lastNow, sec))
+	if m.lastNow == nil {
+		sec := m.nondet("now.sec", 64)
+		// plausible clock range: 2001 .. ~2242 (keeps arithmetic far from wrap-around)
+		m.assume(c.And(c.Sle(c.Const(1_000_000_000, 64), sec), c.Sle(sec, c.Const(1<<33, 64))))
+		m.lastNow = sec
+		m.nowNsec = c.Const(0, 64)
+		if m.cfg.SymbolicNanos {
+			n := m.nondet("now.nsec", 32)
+			m.assume(c.Ult(n, c.Const(1_000_000_000, 32)))
+			m.nowNsec = c.Zext(n, 64)
+		}
 	}
-	m.lastNow = sec
-	var nsec *sym.Term = c.Const(0, 64)
-	if m.cfg.SymbolicNanos {
-		n := m.nondet("now.nsec", 32)
-		m.assume(c.Ult(n, c.Const(1_000_000_000, 32)))
-		nsec = c.Zext(n, 64)
-	}
-	ext := c.Add(sec, c.Const(uint64(unixToInternal), 64))
+	ext := c.Add(m.lastNow, c.Const(uint64(unixToInternal), 64))
 	// loc = time.Local (pointer to localLoc)
 	var loc Value = (*Value)(nil)
 	if g := m.lookupGlobal("time", "localLoc"); g != nil {
 		loc = m.global(g)
 	}
-	return Struct{nsec, ext, loc}
+	return Struct{m.nowNsec, ext, loc}
+}
+
+// advanceClock moves the clock forward by a fresh symbolic amount of 0..max seconds.
+func (m *Machine) advanceClock(name string, max int64) {
+	c := m.ctx
+	m.timeNow()
+	d := m.nondet("clock.advance."+name, 64)
+	m.assume(c.And(c.Sle(c.Const(0, 64), d), c.Sle(d, c.Const(uint64(max), 64))))
+	// counterexamples with a frozen clock are preferred: they replay natively
+	m.prefer = append(m.prefer, c.Eq(d, c.Const(0, 64)))
+	m.lastNow = c.Add(m.lastNow, d)
 }
 
 func (m *Machine) lookupGlobal(pkgPath, name string) *ssa.Global {
@@ -52,6 +64,31 @@ func (m *Machine) lookupGlobal(pkgPath, name string) *ssa.Global {
 
 func addTimeIntrinsics(t map[string]intrinsic) {
 	t["time.Now"] = func(m *Machine, fr *frame, a []Value) Value { return m.timeNow() }
+	// Time.Sub without the saturation logic (which divides by 1e9): exact while the
+	// difference stays far from the int64 range, otherwise the path is unsupported.
+	t["(time.Time).Sub"] = func(m *Machine, fr *frame, a []Value) Value {
+		c := m.ctx
+		tt, uu := a[0].(Struct), a[1].(Struct)
+		parts := func(x Struct) (sec, nsec *sym.Term) {
+			wall, ext := x[0].(*sym.Term), x[1].(*sym.Term)
+			if !wall.IsConst() {
+				// wall = nsec (no monotonic bit by construction of symbolic instants)
+				return ext, c.Bin(sym.OBAnd, wall, c.Const(1<<30-1, 64))
+			}
+			if wall.Val>>63 != 0 {
+				m.unsupported("time.Sub on an instant with monotonic reading")
+			}
+			return ext, c.Const(wall.Val&(1<<30-1), 64)
+		}
+		ts, tn := parts(tt)
+		us, un := parts(uu)
+		ds := c.Sub(ts, us)
+		lim := c.Const(1<<33, 64)
+		if !m.branch(c.And(c.Slt(c.Neg(lim), ds), c.Slt(ds, lim))) {
+			m.unsupported("time.Sub: difference outside ±2^33 s (saturation not modelled)")
+		}
+		return c.Add(c.Mul(ds, c.Const(1_000_000_000, 64)), c.Sub(tn, un))
+	}
 	t["time.Sleep"] = func(m *Machine, fr *frame, a []Value) Value { return nil }
 	t["time.runtimeNano"] = func(m *Machine, fr *frame, a []Value) Value { return m.mkInt(1, 64) }
 	t["(*time.Location).get"] = func(m *Machine, fr *frame, a []Value) Value { return a[0] }
